@@ -329,3 +329,17 @@ class DenseIntOrFPElementsAttr(Attribute):
 
 class AnyDenseElement:
     pass
+
+
+class FunctionType(TypeAttribute):
+    def __init__(self, inputs, outputs):
+        self.inputs = inputs if isinstance(inputs, ArrayAttr) else ArrayAttr(inputs)
+        self.outputs = outputs if isinstance(outputs, ArrayAttr) else ArrayAttr(outputs)
+
+    @staticmethod
+    def from_lists(inputs, outputs):
+        return FunctionType(ArrayAttr(list(inputs)), ArrayAttr(list(outputs)))
+
+    @staticmethod
+    def from_attrs(inputs, outputs):
+        return FunctionType(inputs, outputs)
